@@ -117,6 +117,22 @@ fn run_huff(v: &[u64]) {
     let prof = profile(v[0]);
     let alpha: Vec<u16> = prof.iter().map(|x| x.0).collect();
     let t = train(&prof);
+    // a code book built from no statistics at all (no source regions, or only empty ones) still stores and returns the
+    // empty item (the only one it can accept)
+    if v[1] == 0 && v[2] == 0 {
+        crate::section("VF:huffman.empty_code_book");
+        let none: [&HuffmanContainer<u16>; 0] = [];
+        let empty = HuffmanContainer::<u16>::default();
+        for mut z in [HuffmanContainer::merge_regions(none.into_iter()), HuffmanContainer::merge_regions(std::iter::once(&empty)), HuffmanContainer::merge_regions([&empty, &empty].into_iter())] {
+            let i0 = z.push(&[][..]);
+            let i1 = z.push(Vec::<u16>::new());
+            vassert!(i0 == (0, 0) && i1 == (0, 0), "VF:huffman.empty_code_book.index");
+            vassert!(z.index(i0).into_owned().is_empty() && z.index(i1).into_owned().is_empty() && z.index(i0) == z.index(i1), "VF:huffman.empty_code_book.read");
+            z.clear();
+            let j = z.push([alpha[0]].as_slice());
+            vassert!(z.index(j).into_owned() == [alpha[0]], "VF:huffman.after_clear_not_raw");
+        }
+    }
     // a coded container that has not received a symbol yet must fall back to raw storage on clear, like any other
     {
         crate::section("VF:huffman.after_clear_not_raw");
@@ -253,6 +269,7 @@ fn run_wrapped(v: &[u64]) {
         vassert!((x == y) == (a == b), "VF:wrapped.eq");
         vassert!(x.partial_cmp(&y) == a.partial_cmp(&b), "VF:wrapped.partial_cmp");
         vassert!(x.cmp(&y) == a.cmp(&b), "VF:wrapped.cmp");
+        vassert!((x < y) == (a < b) && (x <= y) == (a <= b) && (x > y) == (a > b) && (x >= y) == (a >= b) && (x != y) == (a != b), "VF:wrapped.operators");
         vassert!(x.cmp(&y) == y.cmp(&x).reverse(), "VF:wrapped.antisymmetric");
     }
     vassert!(enc.index(ea) == raw.index(ra) && enc.index(ea) == enc.index(ea) && enc.index(ea) == other.index(oa) && other.index(oa) == raw.index(ra), "VF:wrapped.representations_equal");
@@ -274,6 +291,13 @@ fn run_wrapped(v: &[u64]) {
         let mut enc2 = HuffmanContainer::merge_regions(std::iter::once(&t_clone(&prof)));
         let j = enc2.push(x);
         vassert!(enc2.index(j).into_owned() == a, "VF:wrapped.region_to_region_encoded");
+        // ... and the copy is a full citizen of the receiving container: the next generation built from it accepts the
+        // same value (its symbols were counted)
+        crate::section("VF:wrapped.region_to_region_next_generation");
+        let mut g = HuffmanContainer::merge_regions(std::iter::once(&enc2));
+        let jg = g.push(a.as_slice());
+        vassert!(g.index(jg).into_owned() == a, "VF:wrapped.region_to_region_next_generation");
+        crate::section("");
         let mut raw2 = HuffmanContainer::<u16>::default();
         let j = raw2.push(x);
         vassert!(raw2.index(j).into_owned() == a, "VF:wrapped.region_to_region_raw");
@@ -440,6 +464,7 @@ fn run_dict(v: &[u64]) {
     }
     let mut m = if v[2] == 1 { CR::merge_regions(std::iter::once(&s1)) } else { CR::merge_regions([&s1, &s2].into_iter()) };
     let mut issued = Vec::new();
+    let mut attempts: Vec<Vec<u8>> = Vec::new();
     // heavy hitters: strings holding at least 1/4 of the source pushes cost one byte each
     let all: Vec<&Vec<u8>> = if v[2] == 1 { t1.iter().collect() } else { t1.iter().chain(t2.iter()).collect() };
     let mut counts = std::collections::BTreeMap::new();
@@ -450,6 +475,7 @@ fn run_dict(v: &[u64]) {
     for (s, n) in &counts {
         if 4 * n >= all.len() && free_tags >= 4 {
             let before = used_bytes(&m);
+            attempts.push(s.clone());
             if push_checked(&mut m, s, &mut issued) {
                 vassert!(used_bytes(&m) - before == 1, "VF:dictionary.heavy_hitter_not_one_byte");
             }
@@ -457,7 +483,40 @@ fn run_dict(v: &[u64]) {
     }
     for sel in [v[3], v[4]] {
         let p = probe(sel, &t1);
+        attempts.push(p.clone());
         let _ = push_checked(&mut m, &p, &mut issued);
+    }
+    // pre-sizing never re-interprets what is stored (neither in the merged region nor in a source), and is invisible
+    // for later pushes
+    {
+        crate::section("VF:dictionary.reserve");
+        // (the codec is not Clone: the twin replays every push attempted so far, refused ones included)
+        let mut twin = if v[2] == 1 { CR::merge_regions(std::iter::once(&s1)) } else { CR::merge_regions([&s1, &s2].into_iter()) };
+        for a in &attempts {
+            let _ = catch_unwind(AssertUnwindSafe(|| twin.push(a.as_slice())));
+        }
+        m.reserve_regions([&s2, &s1].into_iter());
+        m.reserve_regions(std::iter::once(&s2));
+        for (i, want) in issued.iter() {
+            vassert!(m.index(*i) == want.as_slice(), "VF:dictionary.reserve.earlier_read_changed");
+        }
+        s1.reserve_regions(std::iter::once(&s2));
+        s1.reserve_regions(std::iter::once(&s2));
+        for (i, want) in iss1.iter() {
+            vassert!(s1.index(*i) == want.as_slice(), "VF:dictionary.reserve.earlier_read_changed");
+        }
+        let p = probe(v[4], &t1);
+        let a = catch_unwind(AssertUnwindSafe(|| { let i = twin.push(p.as_slice()); (i, twin.index(i).to_vec()) }));
+        let b = catch_unwind(AssertUnwindSafe(|| { let i = m.push(p.as_slice()); (i, m.index(i).to_vec()) }));
+        match (a, b) {
+            (Ok(x), Ok(y)) => {
+                vassert!(x == y, "VF:dictionary.reserve.changed_push_outcome");
+                issued.push((y.0, y.1));
+            }
+            (Ok(_), Err(_)) | (Err(_), Ok(_)) => vassert!(false, "VF:dictionary.reserve.changed_push_outcome"),
+            _ => {}
+        }
+        crate::section("");
     }
     if v[5] == 1 {
         let mut g2 = CR::merge_regions([&m, &s1].into_iter());
@@ -481,12 +540,45 @@ fn run_dict(v: &[u64]) {
 
 // more than 1024 distinct strings, to cross the heavy-hitter summary's compaction
 fn pre_many(v: &[u64]) -> bool {
-    v[0] < 4 && v[1] < 3 && v[2] < 3 && v[3] < 3
+    v[0] < 4 && v[1] < 3 && v[2] < 3 && v[3] < 4
 }
 fn doms_many() -> Vec<Vec<u64>> {
-    vec![range(4), range(3), range(3), range(3)]
+    vec![range(4), range(3), range(3), range(4)]
 }
 fn run_many(v: &[u64]) {
+    if v[3] == 3 {
+        // three generations with more distinct values than tags: whatever a source region stored (as a literal or as a
+        // dictionary hit) is covered by the statistics and must be accepted by the next generation and read back exactly
+        let n = [260usize, 300, 300, 400][v[0] as usize];
+        let lead = [200u8, 0x80, b'k'][v[1] as usize];
+        let x: &[u8] = [&[7u8, 42, 43, 44][..], &[0u8, 1][..], &b"\x01hot"[..]][v[2] as usize];
+        let others: Vec<Vec<u8>> = (0..n).map(|i| vec![lead, (i % 251) as u8, (i / 251) as u8]).collect();
+        let mut g1 = CR::default();
+        let mut iss = Vec::new();
+        for _ in 0..5 {
+            vassert!(push_checked(&mut g1, x, &mut iss), "VF:dictionary.untrained_refused_nonempty");
+        }
+        for o in &others {
+            for _ in 0..2 {
+                vassert!(push_checked(&mut g1, o, &mut iss), "VF:dictionary.untrained_refused_nonempty");
+            }
+        }
+        let mut g2 = CR::merge_regions(std::iter::once(&g1));
+        let mut iss2 = Vec::new();
+        vassert!(push_checked(&mut g2, x, &mut iss2), "VF:dictionary.covered_value_refused");
+        for o in &others {
+            for _ in 0..3 {
+                vassert!(push_checked(&mut g2, o, &mut iss2), "VF:dictionary.covered_value_refused");
+            }
+        }
+        let mut g3 = CR::merge_regions(std::iter::once(&g2));
+        let mut iss3 = Vec::new();
+        vassert!(push_checked(&mut g3, x, &mut iss3), "VF:dictionary.covered_value_refused");
+        for o in others.iter().step_by(17) {
+            vassert!(push_checked(&mut g3, o, &mut iss3), "VF:dictionary.covered_value_refused");
+        }
+        return;
+    }
     if v[3] == 2 {
         // a string that is nowhere near the top of any single source but dominates their union
         let k = [2usize, 3, 4, 3][v[0] as usize];
@@ -751,10 +843,10 @@ fn run_hclear(v: &[u64]) {
 // args: p (small profile), state (0 raw empty, 1 raw with items, 2 coded without pushes, 3 coded with items), how (0 clone, 1 clone_from into a raw
 // destination with items, 2 clone_from into a coded destination), item selector
 fn pre_hclone(v: &[u64]) -> bool {
-    v[0] < 340 && v[1] < 4 && v[2] < 3 && v[3] < N_ITEMS
+    v[0] < 340 && v[1] < 4 && v[2] < 4 && v[3] < N_ITEMS
 }
 fn doms_hclone() -> Vec<Vec<u64>> {
-    vec![vec![4, 20, 84, 339], range(4), range(3), vec![1, 3, 5]]
+    vec![vec![4, 5, 9, 20, 25, 84, 100, 339], range(4), range(4), vec![1, 3, 4, 5, 7]]
 }
 fn run_hclone(v: &[u64]) {
     let prof = profile(v[0]);
@@ -778,9 +870,18 @@ fn run_hclone(v: &[u64]) {
             d.clone_from(&src);
             d
         }
-        _ => {
+        2 => {
             let mut d = HuffmanContainer::merge_regions(std::iter::once(&train(&[(alpha[0], 2), (9999, 1)])));
             let _ = d.push([alpha[0]].as_slice());
+            d.clone_from(&src);
+            d
+        }
+        _ => {
+            // a coded destination over the same alphabet whose code book has the same shape but another frequency
+            // ranking (counts reversed), holding items of its own
+            let rev: Vec<(u16, u64)> = prof.iter().zip(prof.iter().rev()).map(|(a, b)| (a.0, b.1)).collect();
+            let mut d = HuffmanContainer::merge_regions(std::iter::once(&train(&rev)));
+            let _ = d.push([alpha[alpha.len() - 1], alpha[0]].as_slice());
             d.clone_from(&src);
             d
         }
@@ -853,7 +954,7 @@ fn run_ccomp(v: &[u64]) {
 pub fn harnesses() -> Vec<H> {
     vec![
         H { name: "huffman_quick", props: &["C06", "C01", "C02", "C08", "C10"], nargs: 6, pre: pre_huff, doms: doms_huff_quick, run: run_huff, panic_ok: false,
-            bound: "16 frequency profiles (1..4 symbols with counts 1..4, Fibonacci 10/16/21 symbols, 257/600 equiprobable u16) x all pairs of 12 item shapes (empty .. 24 symbols; every start/end bit offset; 0,1,2+ whole bytes) + third item in {empty, 8 symbols} x {one source; two generations; two sources over the same alphabet with different count shapes; three sources raw/empty/coded} x symbol outside the statistics; clear of a coded container before its first symbol", kani: false },
+            bound: "16 frequency profiles (1..4 symbols with counts 1..4, Fibonacci 10/16/21 symbols, 257/600 equiprobable u16) x all pairs of 12 item shapes (empty .. 24 symbols; every start/end bit offset; 0,1,2+ whole bytes) + third item in {empty, 8 symbols} x {one source; two generations; two sources over the same alphabet with different count shapes; three sources raw/empty/coded} x symbol outside the statistics; clear of a coded container before its first symbol; code books built from no statistics (zero sources, empty sources) store and return the empty item", kani: false },
         H { name: "huffman_full", props: &["C06"], nargs: 6, pre: pre_huff, doms: doms_huff, run: run_huff, panic_ok: false,
             bound: "all 340 profiles over alphabets of 1..4 symbols with counts 1..4, Fibonacci-skewed 10..21 symbols (codes to 20 bits), 257/300/600 equiprobable u16 symbols x all pairs of 12 item shapes x third item in {empty, 8, 17 symbols} x 1-2 merge generations x outsider symbol (thorough tier)", kani: false },
         H { name: "columns_coded_merge", props: &["C10", "C08"], nargs: 2, pre: pre_ccm, doms: doms_ccm, run: run_ccm, panic_ok: false,
@@ -861,7 +962,7 @@ pub fn harnesses() -> Vec<H> {
         H { name: "huffman_after_clear", props: &["C06", "C08"], nargs: 2, pre: pre_hclear, doms: doms_hclear, run: run_hclear, panic_ok: false,
             bound: "HuffmanContainer<u16>: 50 occurrences of a foreign symbol pushed into a raw or coded container, clear, then exactly one of 7 profiles, merge: code cost equals the reference for that profile alone and the foreign symbol is refused", kani: false },
         H { name: "codec_clone", props: &["C09"], nargs: 4, pre: pre_hclone, doms: doms_hclone, run: run_hclone, panic_ok: false,
-            bound: "HuffmanContainer<u16>: 4 profiles x source state (raw empty / raw with items / coded without pushes / coded with items) x clone or clone_from into a raw or coded destination with items; identical further push, independence", kani: false },
+            bound: "HuffmanContainer<u16>: 8 profiles x source state (raw empty / raw with items / coded without pushes / coded with items) x clone or clone_from into a raw destination, a coded destination with a foreign code book, or a coded destination whose book has the same shape but the reversed frequency ranking, each holding items; identical further push, independence", kani: false },
         H { name: "coded_composites_merge", props: &["C10", "C01"], nargs: 2, pre: pre_ccomp, doms: doms_ccomp, run: run_ccomp, panic_ok: false,
             bound: "TupleABRegion<HuffmanContainer<u8>, CodecRegion<DictionaryCodec>> and ResultRegion<..>: merge_regions over 1 or 2 source regions, then rows covered by the passed sources' statistics must be accepted and read back", kani: false },
         H { name: "huffman_wrapped", props: &["C14", "C15"], nargs: 4, pre: pre_wrapped, doms: doms_wrapped, run: run_wrapped, panic_ok: false,
@@ -869,10 +970,10 @@ pub fn harnesses() -> Vec<H> {
         H { name: "huffman_forms", props: &["C20"], nargs: 2, pre: pre_hforms, doms: doms_hforms, run: run_hforms, panic_ok: false,
             bound: "HuffmanContainer<u16> raw and coded, 4 profiles: [B;N], &[B;N], Vec<B>, &Vec<B>, raw and encoded read items of another container versus &[B] on twins in the same state (indices, reads), and the next generation merged from each twin (index and read of a probe)", kani: false },
         H { name: "dictionary_quick", props: &["C07", "C01", "C02", "C04", "C08", "C10"], nargs: 7, pre: pre_dict, doms: doms_dict_quick, run: run_dict, panic_ok: false,
-            bound: "CodecRegion<DictionaryCodec>: 8 x 2 training sets over 1..2 source regions; 20 probes (empty, dictionary entries, prefixes/extensions, first byte an assigned tag, eight one-byte strings) x 3; second merge generation; clear; every push refused or read back exactly, heavy hitters cost 1 byte", kani: false },
+            bound: "CodecRegion<DictionaryCodec>: 8 x 2 training sets over 1..2 source regions; 20 probes (empty, dictionary entries, prefixes/extensions, first byte an assigned tag, eight one-byte strings) x 3; second merge generation; reserve_regions on the merged region and on a source (twice), earlier reads unchanged and a further push like on a twin; clear; every push refused or read back exactly, heavy hitters cost 1 byte", kani: false },
         H { name: "dictionary_full", props: &["C07"], nargs: 7, pre: pre_dict, doms: doms_dict, run: run_dict, panic_ok: false,
             bound: "CodecRegion<DictionaryCodec>: 8 x 3 training sets over 1..2 source regions; probes: all 256 one-byte strings, dictionary entries, their prefixes/extensions, strings whose first byte is an assigned tag, the empty string (268 probes x 5); second merge generation; clear; every push refused or read back exactly, heavy hitters cost 1 byte", kani: false },
-        H { name: "dictionary_many", props: &["C07"], nargs: 4, pre: pre_many, doms: doms_many, run: run_many, panic_ok: false,
-            bound: "1023 / 1024 / 1500 / 2600 distinct strings plus a heavy hitter at 1/2, 1/3, 1/4 of the pushes that sorts before / between / after them (crosses MisraGries::tidy), one or two source regions, merged, then probed; and 3-4 source regions with 257/260/300 private strings (x3) each plus a shared string (x2) that dominates only their union", kani: false },
+        H { name: "dictionary_many", props: &["C07", "C01"], nargs: 4, pre: pre_many, doms: doms_many, run: run_many, panic_ok: false,
+            bound: "1023 / 1024 / 1500 / 2600 distinct strings plus a heavy hitter at 1/2, 1/3, 1/4 of the pushes that sorts before / between / after them (crosses MisraGries::tidy), one or two source regions, merged, then probed; and 3-4 source regions with 257/260/300 private strings (x3) each plus a shared string (x2) that dominates only their union; three generations with 260-400 distinct values plus one value that is a dictionary hit in the second generation and has no tag in the third: everything a source stored is accepted and read back", kani: false },
     ]
 }
